@@ -73,6 +73,7 @@ from exabgp.protocol.family import (
     AFI,
 )
 from exabgp.protocol.ip import IP, IPSelf, IPv4, IPv6
+from exabgp.protocol.resource import BaseValue
 from exabgp.rib.route import Route
 
 # TypeVar for flow condition classes
@@ -124,6 +125,15 @@ def flow() -> Route:
     return Route(nlri, AttributeCollection(), nexthop=IP.NoNextHop)
 
 
+def _prefix_bounds(netmask: int, bits: int, offset: int = 0) -> None:
+    """Refuse what the NLRI cannot carry: the mask and the offset are one octet each on the
+    wire, the mask cannot exceed the address and RFC 8956 wants offset < length (or both 0)."""
+    if not 0 <= netmask <= bits:
+        raise ValueError(f'invalid prefix length {netmask}, must be 0 to {bits}')
+    if offset < 0 or (offset >= netmask and (offset, netmask) != (0, 0)):
+        raise ValueError(f'invalid prefix offset {offset}, must be below the prefix length {netmask}')
+
+
 def source(tokeniser: 'Tokeniser') -> Generator[Flow4Source | Flow6Source, None, None]:
     """Update source to handle both IPv4 and IPv6 flows."""
     data: str = tokeniser()
@@ -133,15 +143,18 @@ def source(tokeniser: 'Tokeniser') -> Generator[Flow4Source | Flow6Source, None,
         netmask: str
         ip, netmask = data.split('/')
         raw: bytes = b''.join(bytes([int(_)]) for _ in ip.split('.'))
+        _prefix_bounds(int(netmask), 32)
         yield Flow4Source.make_prefix4(raw, int(netmask))
     # Check if it's IPv6 without an offset
     elif data.count(':') >= IPv6.COLON_MIN and data.count('/') == SINGLE_SLASH:
         ip, netmask = data.split('/')
+        _prefix_bounds(int(netmask), 128)
         yield Flow6Source.make_prefix6(IP.pton(ip), int(netmask), 0)
     # Check if it's IPv6 with an offset
     elif data.count(':') >= IPv6.COLON_MIN and data.count('/') == DOUBLE_SLASH:
         offset: str
         ip, netmask, offset = data.split('/')
+        _prefix_bounds(int(netmask), 128, int(offset))
         yield Flow6Source.make_prefix6(IP.pton(ip), int(netmask), int(offset))
 
 
@@ -154,15 +167,18 @@ def destination(tokeniser: 'Tokeniser') -> Generator[Flow4Destination | Flow6Des
         netmask: str
         ip, netmask = data.split('/')
         raw: bytes = b''.join(bytes([int(_)]) for _ in ip.split('.'))
+        _prefix_bounds(int(netmask), 32)
         yield Flow4Destination.make_prefix4(raw, int(netmask))
     # Check if it's IPv6 without an offset
     elif data.count(':') >= IPv6.COLON_MIN and data.count('/') == SINGLE_SLASH:
         ip, netmask = data.split('/')
+        _prefix_bounds(int(netmask), 128)
         yield Flow6Destination.make_prefix6(IP.pton(ip), int(netmask), 0)
     # Check if it's IPv6 with an offset
     elif data.count(':') >= IPv6.COLON_MIN and data.count('/') == DOUBLE_SLASH:
         offset: str
         ip, netmask, offset = data.split('/')
+        _prefix_bounds(int(netmask), 128, int(offset))
         yield Flow6Destination.make_prefix6(IP.pton(ip), int(netmask), int(offset))
 
 
@@ -233,6 +249,15 @@ def _generic_condition(tokeniser: 'Tokeniser', klass: Type[FlowConditionT]) -> G
         raise ValueError(f"'{klass.__name__}' is not valid for IPv6 flow routes (IPv4-only component)")
 
     _operator = _operator_binary if klass.OPERATION == 'binary' else _operator_numeric
+
+    def _convert(text: str) -> BaseValue:
+        # the converters accept what the keyword can mean, the wire only what the component's
+        # widest value field holds: a value pack() cannot write must be refused here, not there
+        number = klass.converter(text)
+        if not 0 <= number < 1 << (8 * max(klass.VALUE_SIZES)):
+            raise ValueError(f'{number} does not fit the {max(klass.VALUE_SIZES)} byte value of {klass.NAME}')
+        return number
+
     data: str = tokeniser()
     AND: int = BinaryOperator.NOP
     if data == '[':
@@ -245,7 +270,7 @@ def _generic_condition(tokeniser: 'Tokeniser', klass: Type[FlowConditionT]) -> G
             operator, _ = _operator(data)
             value: str
             value, data = _value(_)
-            yield klass(AND | operator, klass.converter(value))
+            yield klass(AND | operator, _convert(value))
             if data:
                 if data[0] != '&':
                     raise ValueError('Unknown binary operator {}'.format(data[0]))
@@ -260,7 +285,7 @@ def _generic_condition(tokeniser: 'Tokeniser', klass: Type[FlowConditionT]) -> G
         while data:
             operator, _ = _operator(data)
             value, data = _value(_)
-            yield klass(operator | AND, klass.converter(value))
+            yield klass(operator | AND, _convert(value))
             if data:
                 if data[0] != '&':
                     raise ValueError('Unknown binary operator {}'.format(data[0]))
